@@ -25,6 +25,45 @@ func lifecycleSteps(t *rapid.T, sc *Scenario) {
 	}
 }
 
+// genC02Race: a directed family around "teardown of an old revision races with the adoption by a newer one": three
+// revisions sharing one object, local or delegated, the first two settled; then the oldest (or the middle one) is archived or
+// deleted and passes of the different controllers are nested into each other right before PKO's writes on the shared object.
+func genC02Race(t *rapid.T) *Scenario {
+	sc := &Scenario{Prop: "C02"}
+	for i := 0; i < 3; i++ {
+		set := SetSpec{Phases: []PhaseSpec{{Name: "p0", Class: rapid.SampledFrom([]string{"", engine.ClassDefault}).Draw(t, "class"),
+			Objs: []ObjSpec{{Pool: 0, Variant: i, CP: rapid.SampledFrom([]string{"", "", "IfNoController"}).Draw(t, "cp")}}}}}
+		if rapid.IntRange(0, 2).Draw(t, "second") == 0 {
+			set.Phases[0].Objs = append(set.Phases[0].Objs, ObjSpec{Pool: 1, Variant: i})
+		}
+		for j := 0; j < i; j++ {
+			set.Previous = append(set.Previous, j)
+		}
+		sc.Steps = append(sc.Steps, Step{Op: "createSet", Set: &set})
+		if i < 2 {
+			sc.Steps = append(sc.Steps, Step{Op: "quiesce"})
+		}
+	}
+	ctrls := []string{engine.CtrlObjectSet, engine.CtrlObjectSetPhase}
+	for i := rapid.IntRange(0, 2).Draw(t, "warmup"); i > 0; i-- {
+		sc.Steps = append(sc.Steps, GenReconcile(t, ctrls))
+	}
+	victim := rapid.IntRange(0, 1).Draw(t, "victim")
+	if rapid.Bool().Draw(t, "archive") {
+		sc.Steps = append(sc.Steps, Step{Op: "archiveSet", I: victim})
+	} else {
+		sc.Steps = append(sc.Steps, Step{Op: "deleteSet", I: victim})
+	}
+	for i := rapid.IntRange(2, 8).Draw(t, "nrace"); i > 0; i-- {
+		if rapid.IntRange(0, 3).Draw(t, "inject") > 0 {
+			sc.Steps = append(sc.Steps, Step{Op: "inject", I: rapid.IntRange(0, 1).Draw(t, "nwrite"), J: InjectOtherControllerPass, K: rapid.IntRange(0, 3).Draw(t, "pick")})
+		}
+		sc.Steps = append(sc.Steps, GenReconcile(t, ctrls))
+	}
+	sc.Steps = append(sc.Steps, Step{Op: "quiesce"})
+	return sc
+}
+
 func TestC02(t *testing.T) {
 	st := NewStats("C02", "engine", "scenario = chains of 1-3 hand-made revisions sharing/adding/dropping pool objects (local + delegated phases, both owner strategies), arbitrary interleaving of their reconciles with pause/archive/delete mid-handover and third-party re-owning; non-trivial = at least one adoption write happened and a lower revision was reconciled afterwards")
 	opts := SetGenOpts{AllowClass: true, Classes: []string{engine.ClassDefault, engine.ClassDefault, engine.ClassRemote}, CPs: []string{"", "", "Prevent", "IfNoController", "None"}, PoolSize: 3, MaxObjs: 3, MaxPhases: 2, ChainBias: true}
@@ -35,7 +74,26 @@ func TestC02(t *testing.T) {
 	CheckOrReplay(t, st, func(data []byte) (any, error) {
 		return ReplayScenario(data, func(sc *Scenario) *Runner { r, _ := mk(sc); return r })
 	}, func(rt *rapid.T) {
-		sc := genChainWorldTP(rt, "C02", opts, lifecycleSteps, false)
+		if rapid.IntRange(0, 3).Draw(rt, "family") == 0 {
+			sc := genC02Race(rt)
+			r, m := mk(sc)
+			err := r.Run()
+			st.Count("passes", int64(len(r.W.Passes)))
+			st.Count("adoption_writes", int64(m.Adoptions))
+			st.Case(sc, r.Labels["c02-older-revision-reconciled-after-adoption"], append(r.LabelList(), "family-teardown-adoption-race")...)
+			st.Report(rt, sc, err)
+			return
+		}
+		sc := genChainWorldTP(rt, "C02", opts, func(t *rapid.T, sc *Scenario) {
+			if rapid.IntRange(0, 2).Draw(t, "race") == 0 {
+				// a pass of another controller (ObjectSet vs. ObjectSetPhase vs. remote phase controller) for another revision
+				// listing the same object lands between this pass's read of the object and its write
+				sc.Steps = append(sc.Steps, Step{Op: "inject", I: rapid.IntRange(0, 2).Draw(t, "nwrite"), J: InjectOtherControllerPass, K: rapid.IntRange(0, 3).Draw(t, "pick")},
+					GenReconcile(t, []string{engine.CtrlObjectSet, engine.CtrlObjectSetPhase, engine.CtrlRemotePhase}))
+				return
+			}
+			lifecycleSteps(t, sc)
+		}, false)
 		r, m := mk(sc)
 		err := r.Run()
 		st.Count("passes", int64(len(r.W.Passes)))
